@@ -207,11 +207,17 @@ func ruleSCVarProtection() check.Rule {
 			m := c.M
 			h := newHeldDB(m)
 			for _, sc := range m.SCs {
-				if sc.Mode != model.ModeSafe && sc.Mode != model.ModeEventuallySafe {
-					continue
-				}
+				// an operator built with an unsafe constructor assumes one sequential producer, so its callbacks are ordered
+				// among themselves; its teardown is not: Subscription.Unsubscribe is goroutine-safe API and runs the teardown
+				// on the caller's goroutine while the producer may be inside a callback. Only teardown-vs-callback pairs are
+				// examined for those
+				unsafeSC := sc.Mode != model.ModeSafe && sc.Mode != model.ModeEventuallySafe
 				armed := c.Armed(sc)
-				c.Inc("safe_scs", 1)
+				if unsafeSC {
+					c.Inc("unsafe_scs", 1)
+				} else {
+					c.Inc("safe_scs", 1)
+				}
 				info := sc.Pkg.TypesInfo
 				locals := directLocals(info, sc.Lit)
 				accs := accessesOf(m, sc.Pkg, h, sc.Lit, locals)
@@ -222,13 +228,25 @@ func ruleSCVarProtection() check.Rule {
 				sort.Slice(vars, func(i, j int) bool { return vars[i].Pos() < vars[j].Pos() })
 				for _, v := range vars {
 					as := accs[v]
-					if isSyncSafeType(v.Type()) {
-						continue
-					}
 					written := false
 					for _, a := range as {
 						if a.write || a.atomic {
 							written = true
+						}
+					}
+					if isSyncSafeType(v.Type()) {
+						// the methods of a concurrency-safe object may be called from anywhere; overwriting the variable that
+						// holds it (`groups = sync.Map{}` to "clear" it) is a plain write that races with those calls — and
+						// for a sync.Map or a mutex it resets the lock word under a goroutine that holds it
+						// ("fatal error: sync: unlock of unlocked mutex")
+						overwritten := false
+						for _, a := range as {
+							if a.write && !a.atomic {
+								overwritten = true
+							}
+						}
+						if !overwritten {
+							continue
 						}
 					}
 					if !written {
@@ -262,6 +280,9 @@ func ruleSCVarProtection() check.Rule {
 								for _, pb := range sc.FnPlaces[b.fn] {
 									A := placeOfAccess(pa, a.node)
 									B := placeOfAccess(pb, b.node)
+									if unsafeSC && !(underTeardown(pa.Ctx) != underTeardown(pb.Ctx)) {
+										continue
+									}
 									if i == j && pa == pb {
 										if !model.Multi(pa.Ctx) {
 											continue
@@ -744,3 +765,12 @@ func verifControlAtomicPointee[T any]() func(Observable[T]) Observable[[]T] {
 	}
 }
 `
+
+func underTeardown(c *model.Ctx) bool {
+	for x := c; x != nil; x = x.Parent {
+		if x.Kind == model.KTeardown {
+			return true
+		}
+	}
+	return false
+}
